@@ -4,9 +4,13 @@ use crate::runner::Prop;
 pub mod c01;
 pub mod c02;
 pub mod c03;
+pub mod c10;
+pub mod c23;
+pub mod c29;
+pub mod exh;
 
 pub fn all() -> Vec<Prop> {
-    vec![c01::prop(), c02::prop(), c03::prop()]
+    vec![c01::prop(), c02::prop(), c03::prop(), c10::prop(), c23::prop(), c29::prop()]
 }
 
 /// Auxiliary child entry points used by custom stages (`verif aux --prop ID ...`).
